@@ -18,8 +18,11 @@ package resolver
 // entries and the servers each resolution asked.
 
 import (
+	"encoding/json"
 	"fmt"
 	"math/rand"
+	"os"
+	"path/filepath"
 	"strings"
 	"sync"
 	"testing"
@@ -27,6 +30,30 @@ import (
 
 	"github.com/miekg/dns"
 )
+
+type vC08RaceParams struct {
+	T0, X1, X2 uint32 // NS TTLs: tld., a.tld. when B asks, a.tld. when A's referral leaves
+	Ans        uint32
+	NX         bool // B asks a name that does not exist
+	Slow       bool // B's lease is 1 s and A's referral is held 1.3 s of real time
+	Repoint    bool // the parent re-points a.tld. between the two referrals
+}
+
+func vC08RaceCorpus(t *testing.T) []vC08RaceParams {
+	dir := os.Getenv("VERIF_CORPUS")
+	if dir == "" {
+		return nil
+	}
+	raw, err := os.ReadFile(filepath.Join(dir, "race.json"))
+	if err != nil {
+		return nil
+	}
+	var items []vC08RaceParams
+	if err := json.Unmarshal(raw, &items); err != nil {
+		t.Fatalf("corpus race.json: %v", err)
+	}
+	return items
+}
 
 type vC08RaceStep struct {
 	id     int
@@ -41,14 +68,20 @@ func TestVerifC08Race(t *testing.T) {
 	n := vC08EnvInt("VERIF_N", 40)
 	r := rand.New(rand.NewSource(seed*104729 + 7))
 	w := &vC08World{}
-	for _, z := range []string{".", "tld.", "a.tld."} {
+	for _, z := range []string{".", "tld.", "a.tld.", "a.tld."} {
 		w.start(t, z)
 	}
 	defer w.stopAll()
 	ttlPool := []uint32{4, 10, 30, 300, 3600, 43200, 43201, 172800}
+	params := vC08RaceCorpus(t)
+	ncorpus := len(params)
 	for c := 0; c < n; c++ {
-		t0ttl, x1, x2 := ttlPool[r.Intn(len(ttlPool))], ttlPool[r.Intn(len(ttlPool))], ttlPool[r.Intn(len(ttlPool))]
-		ansTTL := []uint32{1, 60, 3600, 86400}[r.Intn(4)]
+		pr := vC08RaceParams{T0: ttlPool[r.Intn(len(ttlPool))], X1: ttlPool[r.Intn(len(ttlPool))], X2: ttlPool[r.Intn(len(ttlPool))],
+			Ans: []uint32{1, 60, 3600, 86400}[r.Intn(4)], NX: r.Intn(4) == 0, Slow: r.Intn(12) == 0, Repoint: r.Intn(2) == 0}
+		params = append(params, pr)
+	}
+	for c, pr := range params {
+		t0ttl, x1, x2, ansTTL := pr.T0, pr.X1, pr.X2, pr.Ans
 		w.mu.Lock()
 		for _, s := range w.srvs {
 			s.deleg, s.mode, s.ansTTL, s.negTTL = map[string]*vC08Deleg{}, 0, ansTTL, 30
@@ -60,7 +93,7 @@ func TestVerifC08Race(t *testing.T) {
 		p := vC08NewPipeWith(t, w, 0, 0, nil)
 		labs := vC08Labels{}
 		nameA, nameB := "w1.a.tld.", "w2.a.tld."
-		if r.Intn(4) == 0 {
+		if pr.NX {
 			nameB = "nx.a.tld."
 		}
 		// Occasionally B's lease is one second and A's referral stays on the wire for 1.3 s of REAL
@@ -68,7 +101,7 @@ func TestVerifC08Race(t *testing.T) {
 		// virtual clock cannot be used here: shifting stored instants does not move the deadline A
 		// carries in flight.)
 		var sleep time.Duration
-		if r.Intn(12) == 0 {
+		if pr.Slow {
 			x1 = 1
 			if t0ttl < 10 {
 				t0ttl = 30
@@ -79,6 +112,9 @@ func TestVerifC08Race(t *testing.T) {
 			w.mu.Unlock()
 			sleep = 1300 * time.Millisecond
 		}
+		// half of the time the parent also RE-POINTS the zone between the two referrals: A's referral then names other
+		// servers than the delegation B stored, which A (cached branch) resolves through
+		repoint := pr.Repoint
 		inconcl := false
 		var once sync.Once
 		var hT0, hT1, bT0, bT1 int64
@@ -101,6 +137,9 @@ func TestVerifC08Race(t *testing.T) {
 				}
 				w.mu.Lock()
 				w.srvs[1].deleg["a.tld."].nsTTL = []uint32{x2}
+				if repoint {
+					w.srvs[1].deleg["a.tld."].target = 3
+				}
 				w.mu.Unlock()
 				hT1 = p.now()
 			})
@@ -156,15 +195,67 @@ func TestVerifC08Race(t *testing.T) {
 			es = append(es, fmt.Sprintf("(%d%%N, Some (%s%%Z, %s%%Z, %s))", keyOf[nm], vC08Z(p.virt(e.Stored)), vC08Z(int64(e.TTL)), vC08OZ2(!e.CutUntil.IsZero(), p.virt(e.CutUntil))))
 		}
 		kind := "race-cached-branch"
+		if c < ncorpus {
+			kind = "corpus-" + kind
+		}
 		if sleep > 0 {
-			kind = "race-store-over-expired"
+			kind = strings.Replace(kind, "race-cached-branch", "race-store-over-expired", 1)
+		}
+		if repoint {
+			kind += "-repointed"
+		}
+		// afterwards: the zone is re-pointed (if it was not already) or withdrawn, the clock moves past every lease the
+		// parent granted for the OLD server set (server 2: B's referral, and A's when it still named server 2), and A's
+		// question is asked again: nothing of server 2 may be served or asked
+		const sec = int64(time.Second)
+		h12 := int64(12 * time.Hour)
+		capd := func(ttl uint32) int64 {
+			v := int64(ttl) * sec
+			if v > h12 {
+				v = h12
+			}
+			return v
+		}
+		leaseOld := bT1 + capd(x1)
+		if !repoint {
+			if v := aT1 + capd(x2); v > leaseOld {
+				leaseOld = v
+			}
+			w.mu.Lock()
+			if r.Intn(2) == 0 {
+				w.srvs[1].deleg["a.tld."].active = false
+			} else {
+				w.srvs[1].deleg["a.tld."].target = 3
+			}
+			w.mu.Unlock()
+		}
+		if dd := leaseOld + vC08Margin - p.now(); dd > 0 {
+			p.advance(time.Duration(dd))
+		}
+		w.takeLog()
+		t4 := p.now()
+		rep4 := p.ask(nameA, dns.TypeA, r.Intn(2) == 0)
+		oldAsked := false
+		for _, e := range w.takeLog() {
+			if e.srv == 2 {
+				oldAsked = true
+			}
+		}
+		if !rep4.ok {
+			inconcl = true
+		}
+		ghost := rep4.src == 2 || oldAsked
+		goFail := ""
+		if ghost && !inconcl {
+			goFail = fmt.Sprintf("ghost: %s asked again at t=%v, after every lease the parent granted for the old servers of a.tld. ended (%v) and tld. had re-pointed/withdrawn it: rcode=%d src=%d old servers asked=%v",
+				nameA, time.Duration(t4), time.Duration(leaseOld), rep4.rcode, rep4.src, oldAsked)
 		}
 		m := map[string]any{
-			"k": kind, "go_fail": "", "nontrivial": true,
-			"coq": fmt.Sprintf("CaseRace [%s] [%s] [%s] [(1%%N, [%s]%%N); (2%%N, [%s]%%N)]", strings.Join(steps, "; "), strings.Join(ds, "; "), strings.Join(es, "; "),
-				strings.Join(asked[1], ";"), strings.Join(asked[2], ";")),
-			"desc": fmt.Sprintf("tld TTL %d; a.tld. TTL %d when B asked, %d when A's referral left; answer TTL %d; A's referral held %v on the wire; A=%s -> rcode %d src %d; B=%s -> rcode %d src %d; delegations %v; entries %v",
-				t0ttl, x1, x2, ansTTL, sleep, nameA, repA.rcode, repA.src, nameB, repB.rcode, repB.src, ds, es),
+			"k": kind, "go_fail": goFail, "nontrivial": true,
+			"coq": fmt.Sprintf("CaseRace [%s] [%s] [%s] [(1%%N, [%s]%%N); (2%%N, [%s]%%N)] %s %s", strings.Join(steps, "; "), strings.Join(ds, "; "), strings.Join(es, "; "),
+				strings.Join(asked[1], ";"), strings.Join(asked[2], ";"), vC08Z(t4), vC08B(ghost)),
+			"desc": fmt.Sprintf("tld TTL %d; a.tld. TTL %d when B asked, %d when A's referral left; answer TTL %d; A's referral held %v on the wire; A=%s -> rcode %d src %d; B=%s -> rcode %d src %d; delegations %v; entries %v; re-pointed between the referrals=%v; old servers' leases end %v, A asked again at t=%v: rcode=%d src=%d old servers asked=%v",
+				t0ttl, x1, x2, ansTTL, sleep, nameA, repA.rcode, repA.src, nameB, repB.rcode, repB.src, ds, es, repoint, time.Duration(leaseOld), time.Duration(t4), rep4.rcode, rep4.src, oldAsked),
 		}
 		if inconcl {
 			m["inconclusive"] = true
